@@ -437,7 +437,9 @@ def chain (op : Expr → Expr → Expr) : List Name → Expr
 /-- `io.circuit_to_verilog(c, behavioral)` up to rendering: the statements it emits -/
 def toWModule (c0 : Circuit) (behavioral : Bool) (ord : Ord) : E WModule :=
   -- private copy; escaped identifiers get a trailing blank
-  let c1 := (ord c0.nodeNames).foldl (fun c n => if n.startsWith "\\" then c.relabelOne n (n ++ " ") else c) c0
+  -- blackbox pin nodes keep their names even when the instance name is an escaped identifier (fix K37)
+  let c1 := (ord c0.nodeNames).foldl (fun c n =>
+    if n.startsWith "\\" && !(c.ty? n == some "bb_input" || c.ty? n == some "bb_output") then c.relabelOne n (n ++ " ") else c) c0
   (if c1.nodes.any (fun p => p.2.ty.isNone) then .error .keyError else pure ()) >>= fun _ =>
   let inputs := ord c1.inputs
   let outputs := ord c1.outputs
